@@ -263,6 +263,35 @@ def run(ctx, configs=None):
         ctx.floor("C01.window-invariant", "loop round trips evaluated (%s)" % cfg, n_round, 1)
         ctx.floor("C01.window-invariant", "window obligations evaluated (%s)" % cfg, nchecks, 8)
 
+        # ---- what is delivered is what the framing parser produced ------------------------------------
+        # every `Some(..)` the reader returns is built from the parser's success value and nothing else: a second way of cutting a
+        # message out of the buffer (a fast path for "exactly one frame", a peek at the header) bypasses fragment reassembly
+        ctx.rule("C01.delivery-from-parser", "every packet the reader returns is the framing parser's result")
+        pname = cname(fr.term(pbb)["func"])
+        ndel = 0
+        for bbx, ix, sx in fr.stmts():
+            if sx["k"] != "assign" or fr.is_cleanup(bbx) or sx["rv"]["k"] != "agg" or sx["rv"].get("ak") != "adt":
+                continue
+            if not (sx["rv"].get("adt", "").endswith("option::Option") and sx["rv"].get("vname") == "Some"):
+                continue
+            if "Packet" not in (fr.local_ty(sx["lhs"]["l"]) or "") or sx["lhs"]["p"]:
+                continue
+            ndel += 1
+            val = fr.origin_op(sx["rv"]["fields"][0], bbx, ix)
+            leaves = []
+            def _leaves(x, d=0):
+                if isinstance(x, tuple) and x and x[0] == "agg" and d < 6 and len(x) > 4 and x[4]:
+                    for y in x[4]:
+                        _leaves(y, d + 1)
+                else:
+                    leaves.append(x)
+            _leaves(val)
+            from_parser = lambda x: T.contains(x, lambda y: isinstance(y, tuple) and y and y[0] in ("okpayload", "variant") and T.contains(y, lambda z: isinstance(z, tuple) and z and z[0] == "call" and z[1] == pname))
+            bad = [x for x in leaves if not from_parser(x)]
+            ctx.ob("C01.delivery-from-parser", not bad, "the reader returns %s, which is not (part of) the result of %s: the message was cut out of the buffer some other way, without fragment reassembly"
+                   % (term_str(bad[0])[:90] if bad else "", pname), fn=fr.path, construct="delivered-packet", where=fr.where(bbx))
+        ctx.floor("C01.delivery-from-parser", "packet deliveries of the reader (%s)" % cfg, ndel, 1)
+
         # ---- parse when buffered ----------------------------------------------------------------
         # the reader may go back to the transport without attempting to parse only when nothing is buffered
         # (remaining == 0): any stronger gate ("looks complete", "enough bytes") can leave a complete command unparsed
